@@ -54,10 +54,19 @@ func bufScenario(capacity, bufMax int, producers [][]string, consumers [][]strin
 
 // drain "poll": repeated Poll with pauses; drain "take": one blocking Take per outstanding item.
 func bufScenarioD(capacity, bufMax int, producers [][]string, consumers [][]string, drain string, bound int, delay bool) *vsched.Scenario {
+	return bufScenarioX(capacity, bufMax, producers, consumers, drain, bound, delay, false)
+}
+
+// setters: the queue is built with another buffer maximum and configured through its setters
+// (buffer maximum, loader interval 3 ms instead of the default, node-hook settings) before use.
+func bufScenarioX(capacity, bufMax int, producers [][]string, consumers [][]string, drain string, bound int, delay bool, setters bool) *vsched.Scenario {
 	fam := "buffered"
 	var ps probeState
 	var fullTick, emptyTick, maxHeld int
 	name := fmt.Sprintf("buffered/cap%d/buf%d/P:%s/C:%s/drain-%s", capacity, bufMax, scripts(producers), scripts(consumers), drain)
+	if setters {
+		name += "/configured-by-setters"
+	}
 	return &vsched.Scenario{
 		Name:     name,
 		Bound:    bound,
@@ -68,6 +77,12 @@ func bufScenarioD(capacity, bufMax int, producers [][]string, consumers [][]stri
 		Body: func() {
 			fullTick, emptyTick, maxHeld = 0, 0, 0
 			q := fpgo.NewBufferedChannelQueue[int](capacity, bufMax, 100)
+			if setters {
+				q = fpgo.NewBufferedChannelQueue[int](capacity, bufMax+5, 1).SetBufferSizeMaximum(bufMax).SetLoadFromPoolDuration(3 * time.Millisecond).
+					SetNodeHookPoolSize(100).SetFreeNodeHookPoolIntervalDuration(time.Hour)
+				vsched.Event("config", q.GetBufferSizeMaximum() == bufMax && q.GetLoadFromPoolDuration() == 3*time.Millisecond &&
+					q.GetNodeHookPoolSize() == 100 && q.GetFreeNodeHookPoolIntervalDuration() == time.Hour)
+			}
 			ps = probeState{q}
 			var wg sync.WaitGroup
 			for pi, script := range producers {
@@ -164,6 +179,9 @@ func bufScenarioD(capacity, bufMax int, producers [][]string, consumers [][]stri
 			fs := e1.Basic("C07", fam, r, allowTake)
 			if len(r.Panics) > 0 || r.Cap != "" || r.InvFail != "" {
 				return fs
+			}
+			if e1.Count(r, "config", false) > 0 {
+				fs = append(fs, e1.Fail("C07|"+fam+"|configuration", "a getter does not return what the matching setter was given"))
 			}
 			accepted := map[int]bool{}
 			for _, e := range r.Events {
@@ -371,6 +389,9 @@ func scenarios(tier string) []*vsched.Scenario {
 			bufScenarioD(1, 1, P1, [][]string{{"poll"}}, "take", 1, false), bufScenarioD(1, 2, P1, [][]string{{"taket"}}, "take", 1, false), bufScenarioD(2, 1, P1, nil, "take", 1, false),
 			// unbuffered channel: the loader can only hand over to a consumer that is already waiting - a blocked Take is one
 			bufScenarioD(0, 2, P1, nil, "take", 1, false), bufScenarioD(0, 1, P1p, [][]string{{"poll"}}, "take", 1, false))
+		// configured through the setters instead of the constructor
+		out = append(out, bufScenarioX(1, 1, P1, cons[0], "poll", 1, false, true), bufScenarioX(1, 0, P1, cons[1], "poll", 1, false, true),
+			bufScenarioX(2, 2, P1, nil, "take", 1, false, true), bufScenarioX(0, 1, P1, cons[2], "poll", 1, false, true))
 		return out
 	}
 	for c := 0; c <= 2; c++ {
@@ -382,6 +403,11 @@ func scenarios(tier string) []*vsched.Scenario {
 		}
 	}
 	out = append(out, bufScenario(1, 1, P1, cons[0], 2, false), bufScenario(1, 1, P1, cons[1], 2, false))
+	for c := 0; c <= 2; c++ {
+		for b := 0; b <= 2; b++ {
+			out = append(out, bufScenarioX(c, b, P1, cons[(c+b)%4], "poll", 2, false, true))
+		}
+	}
 	for c := 0; c <= 2; c++ {
 		for b := 0; b <= 2; b++ {
 			out = append(out, bufScenario(c, b, P2, nil, 2, false))
